@@ -59,7 +59,7 @@ func c02Token(c *mon.Ctx, r *mon.Rand) {
 		rec = pr.Recorder
 		opts.Reporter = pr
 	}
-	root, _ := tally.VerifNewRootScope(opts, 0, 1)
+	root, _ := vNewRoot(opts, 0, 1)
 	var sc tally.Scope = root
 	if r.Bool() {
 		sc = root.SubScope("s")
@@ -165,7 +165,7 @@ func c02Stress(c *mon.Ctx, r *mon.Rand) {
 	inj := mon.NewDelayInjector(r.U64(), prof, true)
 	inj.Install()
 	defer inj.Uninstall()
-	root, closer := tally.VerifNewRootScope(opts, interval, uint(r.Range(1, 3)))
+	root, closer := vNewRoot(opts, interval, uint(r.Range(0, 3)))
 	const G = 64
 	nUpd := 4
 	gauges := make([]tally.Gauge, G)
